@@ -123,9 +123,12 @@ def run(R):
             if type(a) is Sq and stt.const(a.len) == 32 and a.head and len(a.head) == 32:
                 got = [sorted(map(str, stt.taint.get(a.head[i].vid, {"<none>"}))) for i in range(32)]
                 want = [[str(("seed", i))] for i in range(32)]
-                ok = got == want
-                bad = [i for i in range(32) if got[i] != want[i]]
-                why = f"bytes {bad[:8]} of the generator seed are not the corresponding bytes of the parameter (e.g. byte {bad[0]} carries {got[bad[0]]})" if bad else ""
+                # identity, not only dependence: the very abstract value of parameter byte i (any arithmetic on it would have made a new one)
+                same = [a.head[i].vid == heads[i].vid and stt.itv[a.head[i].vid] == (0, 255) for i in range(32)]
+                ok = got == want and all(same)
+                bad = [i for i in range(32) if got[i] != want[i] or not same[i]]
+                why = (f"bytes {bad[:8]} of the generator seed are not the corresponding bytes of the parameter, unmodified (e.g. byte {bad[0]} carries {got[bad[0]]}"
+                       f"{'' if same[bad[0]] else ', and is a computed value, range ' + str(stt.itv[a.head[bad[0]].vid])})") if bad else ""
             else:
                 why = "the generator seed is not a 32-byte array whose bytes can be traced individually to the parameter"
         R.check(ok, "C15-seed", site, "the generator is StdRng::from_seed(seed): each of the 32 seed bytes reaches it unmodified, in place", why, key=f"seed|{N}")
